@@ -188,3 +188,25 @@ fn d2_trimer_area_is_the_area_of_the_union() {
     // both small discs (radius 0.3 at distance 0.5) lie inside the unit disc: the union is the unit disc
     assert!((area - std::f64::consts::PI).abs() < 1e-9, "area of a unit disc with two discs inside it reported as {}", area);
 }
+
+/// D3b (C03, KNOWN FINDING, not fixed): the lattice sum looks at a fixed 3 shells of images whatever the cutoff.
+/// In a flat cell (height 1) trimer atoms 4 cells away are still inside the 3.5 cutoff and are missed.
+#[test]
+fn d3b_every_pair_within_the_cutoff_is_counted() {
+    use packing::traits::Potential;
+    use packing::{LJShape2, PotentialState};
+    let wg = get_wallpaper_group(WallpaperGroups::p1).unwrap();
+    let shape = LJShape2::from_trimer(0.637556, 120., 1.);
+    let st = PotentialState::from_group(shape.clone(), &wg).unwrap();
+    let mut basis = st.generate_basis();
+    // cell: a = 5, b = 1 (ratio 0.2), angle pi/2; molecule at the origin, orientation 0
+    let params = [5.0, 0.2, std::f64::consts::PI / 2., 0., 0., 0.];
+    for (b, p) in basis.iter_mut().zip(params.iter()) { b.set_value(*p); }
+    // independent lattice sum over 6 shells, each unordered pair once (one molecule per cell: half the ordered sum)
+    let t0 = st.cartesian_positions().next().unwrap();
+    let s0 = st.shape.transform(&t0);
+    let p0 = st.relative_positions().next().unwrap();
+    let full: f64 = st.cell.periodic_images(p0, 6, false).map(|t| s0.energy(&st.shape.transform(&t))).sum::<f64>() / 2.;
+    let reported = st.score().unwrap();
+    assert!((reported + full).abs() < 1e-12, "score {} but the lattice energy per molecule within the cutoff is {}", reported, full);
+}
